@@ -16,6 +16,7 @@ mod utils;
 /// with default encoding instructions
 pub struct Typescript {
     config: Config,
+    extensibility_environment: ExtensibilityEnvironment,
 }
 
 #[derive(Debug, Default)]
@@ -28,15 +29,25 @@ impl Backend for Typescript {
     const FILE_EXTENSION: &'static str = ".ts";
 
     fn from_config(config: Self::Config) -> Self {
-        Self { config }
+        Self {
+            config,
+            extensibility_environment: ExtensibilityEnvironment::default(),
+        }
     }
 
     fn config(&self) -> &Self::Config {
         &self.config
     }
 
-    fn new(config: Self::Config, _: TaggingEnvironment, _: ExtensibilityEnvironment) -> Self {
-        Self::from_config(config)
+    fn new(
+        config: Self::Config,
+        _: TaggingEnvironment,
+        extensibility_environment: ExtensibilityEnvironment,
+    ) -> Self {
+        Self {
+            config,
+            extensibility_environment,
+        }
     }
 
     fn generate_module(
@@ -45,6 +56,7 @@ impl Backend for Typescript {
     ) -> Result<GeneratedModule, GeneratorError> {
         if let Some(module_ref) = tlds.first().and_then(|tld| tld.get_module_header()) {
             let module = module_ref.borrow();
+            self.extensibility_environment = module.extensibility_environment;
             let namespace = to_jer_identifier(&module.name);
             let imports = module
                 .imports
